@@ -39,7 +39,7 @@ Print Assumptions C19_upload_contained.
    any point, any pre-existing entries incl. symlinks at the final or the temporary name) the final name shows its
    old entry or the complete file; no operation went through a symlink; no other entry changed *)
 Theorem C19_atomic_publish : forall s0 final blocks k,
-  wf_st s0 -> unshared s0 (final ++ putfile_tmp_ext) -> clean s0 ->
+  wf_st s0 -> unshared s0 (final ++ putfile_tmp_ext) -> clean s0 -> no_dir_at s0 (final ++ putfile_tmp_ext) ->
   let s := run s0 (firstn k (upload_ops final blocks Done)) in
   (look s final = look s0 final \/ look s final = VFile (concat blocks)) /\
   followed s = false /\ failed s = false /\
@@ -47,9 +47,19 @@ Theorem C19_atomic_publish : forall s0 final blocks k,
 Proof. exact upload_atomic. Qed.
 Print Assumptions C19_atomic_publish.
 
+(* the guard in front of open() must be the lstat-based islink(): an exists() guard lets a dangling symlink at the
+   temporary name through and the file is then created through it, outside the directory (seeded change C19-s1) *)
+Theorem C19_exists_guard_refuted :
+  let tmp := ex_final ++ putfile_tmp_ext in
+  wf_st ex_dangling /\ unshared ex_dangling tmp /\ clean ex_dangling /\ no_dir_at ex_dangling tmp /\
+  followed (run ex_dangling [UnlinkIfExists tmp; Open tmp]) = true /\
+  followed (run ex_dangling [UnlinkIfLink tmp; Open tmp]) = false.
+Proof. exact exists_guard_insufficient. Qed.
+Print Assumptions C19_exists_guard_refuted.
+
 (* ... and a run that is not interrupted does publish the complete file and leaves no temporary *)
 Theorem C19_upload_completes : forall s0 final blocks,
-  wf_st s0 -> unshared s0 (final ++ putfile_tmp_ext) -> clean s0 ->
+  wf_st s0 -> unshared s0 (final ++ putfile_tmp_ext) -> clean s0 -> no_dir_at s0 (final ++ putfile_tmp_ext) ->
   let s := run s0 (upload_ops final blocks Done) in
   look s final = VFile (concat blocks) /\ names s (final ++ putfile_tmp_ext) = None /\ failed s = false.
 Proof. exact upload_completes. Qed.
@@ -58,7 +68,7 @@ Print Assumptions C19_upload_completes.
 (* "an interrupted upload leaves neither a partial file under the final name nor a leftover temporary": source
    error or disconnect after any number of blocks, and a crash anywhere inside that path *)
 Theorem C19_interrupted_upload : forall s0 final blocks k,
-  wf_st s0 -> unshared s0 (final ++ putfile_tmp_ext) -> clean s0 ->
+  wf_st s0 -> unshared s0 (final ++ putfile_tmp_ext) -> clean s0 -> no_dir_at s0 (final ++ putfile_tmp_ext) ->
   let s := run s0 (firstn k (upload_ops final blocks SrcError)) in
   (forall q, q <> final ++ putfile_tmp_ext -> look s q = look s0 q) /\ followed s = false /\ failed s = false /\
   ((List.length (upload_ops final blocks SrcError) <= k)%nat -> names s (final ++ putfile_tmp_ext) = None).
@@ -82,7 +92,7 @@ Print Assumptions C19_publisher_contained.
 Theorem C19_registry_atomic : forall s0 basedir chunks k,
   let final := registry_final basedir in
   let tmp := final ++ registry_tmp_ext in
-  wf_st s0 -> unshared s0 tmp -> clean s0 -> no_link_at s0 tmp ->
+  wf_st s0 -> unshared s0 tmp -> clean s0 -> no_link_at s0 tmp -> no_dir_at s0 tmp ->
   let s := run s0 (firstn k (registry_ops basedir chunks)) in
   (look s final = look s0 final \/ look s final = VFile (concat chunks)) /\ failed s = false /\
   (forall q, q <> tmp -> q <> final -> look s q = look s0 q) /\
